@@ -161,7 +161,7 @@ Error ArenaBitSet::_resize(Arena& arena, size_t new_size, size_t ideal_capacity,
 
   // Clear unused bits of the last bit-word.
   if (end_bit) {
-    data[end_index - 1] = pattern & ((BitWord(1) << end_bit) - 1);
+    data[end_index - 1] &= (BitWord(1) << end_bit) - 1;
   }
 
   _size = uint32_t(new_size);
